@@ -29,7 +29,8 @@ type c02Case struct {
 	outcome  int  // holder outcome; caller i completes with (outcome+1+i)%3
 	cancel   bool // a canceller thread cancels caller 0's context
 	keys     []string
-	eager    bool // timers may fire at any point (queue family: give-up racing hand-off)
+	eager    bool   // timers may fire at any point (queue family: give-up racing hand-off)
+	remove   string // partitioned strategies: a thread removes this partition while its tokens are outstanding
 }
 
 // endState checks that nothing is held anywhere and that the full limit is admitted again.
@@ -55,7 +56,14 @@ func endState(x *mc.Exec, st *stack, key string) {
 		}
 	case *strategy.PredicatePartitionStrategy:
 		for i := 0; i < 2; i++ {
-			if b, err := s.BinBusyCount(i); err == nil && b != 0 {
+			// (an index equal to the number of partitions left after a removal panics inside the accessor —
+			// a bounds slip outside the given properties, see DESIGN 8 — so stop at the first failure)
+			var b int
+			var err error
+			if pm := mc.Safe(func() { b, err = s.BinBusyCount(i) }); pm != "" || err != nil {
+				break
+			}
+			if b != 0 {
 				x.Fail("leak/bin", "predicate bin %d busy=%d at the end", i, b)
 			}
 		}
@@ -107,8 +115,8 @@ func findNamed(obj any, name string) (any, bool) {
 func c02Scenario(cs c02Case) *mc.Scenario {
 	return &mc.Scenario{
 		Name: fmt.Sprintf("C02/%s", cs.kind),
-		Params: fmt.Sprintf("strategy=%s limit=%d callers=%d holder-outcome=%s cancel=%v keys=%v eager-clock=%v", cs.strategy, cs.limit, cs.callers,
-			outcomeNames[cs.outcome], cs.cancel, cs.keys, cs.eager),
+		Params: fmt.Sprintf("strategy=%s limit=%d callers=%d holder-outcome=%s cancel=%v keys=%v eager-clock=%v remove-partition=%q", cs.strategy, cs.limit, cs.callers,
+			outcomeNames[cs.outcome], cs.cancel, cs.keys, cs.eager, cs.remove),
 		Cfg: vrt.Config{EagerClock: cs.eager, MaxSteps: 6000},
 		Body: func(x *mc.Exec) {
 			st := buildStack(cs.kind, cs.limit, stackOpts{strategy: cs.strategy, timeout: 20 * time.Millisecond, deadlineIn: 20 * time.Millisecond})
@@ -166,6 +174,16 @@ func c02Scenario(cs c02Case) *mc.Scenario {
 			if cs.cancel {
 				ths = append(ths, vrt.GoL("X", func() { cancels[0]() }))
 			}
+			if cs.remove != "" {
+				ths = append(ths, vrt.GoL("R", func() {
+					switch s := st.strat.(type) {
+					case *strategy.LookupPartitionStrategy:
+						s.RemovePartition(cs.remove)
+					case *strategy.PredicatePartitionStrategy:
+						s.RemovePartitionsMatching(ctxFor(cs.remove))
+					}
+				}))
+			}
 			vrt.Join(ths...)
 			// flush: whoever is still blocked once nothing else can run gets cancelled; callers of a
 			// limiter that ignores cancellation leave through their timeout (the clock runs at quiescence)
@@ -178,7 +196,11 @@ func c02Scenario(cs c02Case) *mc.Scenario {
 			vrt.Join(callers...)
 			x.Observe("results=%v clock=%d", results, vrt.Now())
 			x.MarkConflict()
-			endState(x, st, key(0))
+			ek := key(0)
+			if cs.remove != "" && ek == cs.remove {
+				ek = map[string]string{"a": "b", "b": "a"}[cs.remove] // a partition that still exists
+			}
+			endState(x, st, ek)
 		},
 		Post: func(x *mc.Exec, r *vrt.Result) {
 			if r.Stuck && !x.Failed() {
@@ -207,6 +229,10 @@ func runC02(c *Ctx) {
 			if c.Thorough() {
 				c.Explore(c02Scenario(c02Case{kind: "default", strategy: sk, limit: 2, callers: 3, outcome: 0, keys: ks}), opt)
 			}
+			if len(ks) > 0 {
+				// a partition is removed while one of its tokens is outstanding (the holder's key is ks[0])
+				c.Explore(c02Scenario(c02Case{kind: "default", strategy: sk, limit: 2, callers: 2, outcome: 2, keys: ks, remove: ks[0]}), opt)
+			}
 		}
 	}
 	kinds := append([]string{}, blockingKinds...)
@@ -220,6 +246,9 @@ func runC02(c *Ctx) {
 			c.Explore(c02Scenario(c02Case{kind: kind, strategy: "precise", limit: 1, callers: 2, outcome: o, eager: eager}), opt)
 			c.Explore(c02Scenario(c02Case{kind: kind, strategy: "precise", limit: 1, callers: 2, outcome: (o + 1) % 3, cancel: true, eager: eager}),
 				mc.Options{PreemptBound: 1})
+			if kind == "blocking0" || kind == "deadline" || kind == "queue-fifo-evict" || kind == "pool-lifo" {
+				c.Explore(c02Scenario(c02Case{kind: kind, strategy: "simple", limit: 2, callers: 3, outcome: (o + 2) % 3, eager: eager}), mc.Options{PreemptBound: 1})
+			}
 			continue
 		}
 		for o := 0; o < 3; o++ {
